@@ -214,6 +214,7 @@ pub fn miri_main(args: &[String]) -> ! {
     let from: u64 = args[1].parse().unwrap();
     let count: u64 = args[2].parse().unwrap();
     crate::util::install_quiet_panic_hook();
+    generate::NO_LARGE.store(true, std::sync::atomic::Ordering::Relaxed);
     let mut stats = Stats::default();
     for idx in from..from + count {
         // offset so that Miri does not simply repeat the first native histories
